@@ -25,7 +25,7 @@ proved under hypothesis H; **judged only** = no theorem, Lean judge on every rea
 | 3 | "using any copy as the old tree of a re-parse … never alters it" | `reparse_isolated`, `rc_invariant_reparse` | **partial (H = the parser's ownership contract)**: a re-parse is an abstract build in which "reuse = retain, everything else is a fresh cell"; that the real parser never WRITES into a reused node (`ts_parser__shift` flag flip, `breakdown_*`, balancing) is not modelled — **judged only** (role / breakdown histories, wave 5/6 seeds) |
 | 4 | "deleting other copies never alters it" | `delete_isolated` (the whole release cascade), `rc_invariant_delete` | proved |
 | 5 | "although structure is shared" | no theorem assumes unshared structure; `decide` examples with a shared cell (`Props.lean`, `Persistence.lean`) | proved (non-vacuity) |
-| 6 | "distinct copies may be edited, re-parsed, queried and deleted concurrently on different threads with the same results as sequentially" | `interleaving_eq_sequential`, `accesses_commute` (Concurrency.lean): every interleaving of two threads' access sequences with independent cross pairs equals "A then B" in final heap and in everything each thread reads; `interleaving_eq_sequential_counts` | **partial (H = independence of the cross pairs)**: that two whole API operations on distinct handles produce independent access sequences follows informally from 7 + 2–4 but is not derived in Lean (needs the operations in small-step form) — **judged only**: 2–16 threads vs sequential, equal results |
+| 6 | "distinct copies may be edited, re-parsed, queried and deleted concurrently on different threads with the same results as sequentially" | `interleaving_eq_sequential`, `accesses_commute` (Concurrency.lean): every interleaving of two threads' access sequences with independent cross pairs equals "A then B" in final heap and in everything each thread reads; `interleaving_eq_sequential_counts` | **partial (H = independence of the cross pairs)**; round 11 (Round11.lean) derives part of H: `edit_footprint_owned` / `editRef_footprint` (the plain-write footprint `editWrites` of a whole `ts_tree_edit` — every cell rewritten in place, along any visited set — contains no cell reachable from another handle, and every such cell keeps children and payload), `edit_writes_indep` (so every `write` of an edit is `indep` of every access another thread makes to a cell reachable from its own handle), `delete_footprint_owned` / `release_cellframe` (the release cascade frees / changes no cell reachable from another handle), `copy_footprint_owned`, and H discharged completely for copy‖copy (`copy_accesses`, `copy_copy_interleaving`).  Still not derived: the full ordered small-step access sequences of edit / delete (reads, `dec`/`dec` and `inc`/`dec` on a shared count, which are not `indep`) — **judged only**: 2–16 threads vs sequential, equal results |
 | 7 | "no shared node is written without exclusive ownership" | `writes_exclusive`, `make_mut_result`, `make_mut_never_mutates_shared` (the cell handed to the writer has count 1 and no other reference at all; every pre-existing cell keeps children and payload) | proved for `ts_subtree_make_mut`, the only writer in the model; the other `ref_count == 1` licences (`ts_subtree_compress`, `ts_parser__balance_subtree`) are **judged only** (seed C08-r2); probe `mm` on the real function |
 | 8 | "no reference-count update is lost" | `rc_invariant` (any history: count = number of owners for every id), `no_lost_update_counts`, `interleaving_eq_sequential_counts` | proved; concurrency part **assumed**: `atomic_inc/dec` are atomic and sequentially consistent (probed with 16 threads; memory order tied at token level) |
 | 9 | "every shared node is freed exactly once after the last handle goes away" | `heap_empty_after_last_delete` (no live cell once no handle is left, via `acyclic_invariant`), `persistence` (a) = `reachable_live` (nothing reachable is freed early), `no_dangling_no_garbage`, `freed_never_reused_edit/_release` (a freed id never becomes live again: no confusion of a second free with a new cell) | proved (model); "exactly once" on the real heap **judged**: poisoning allocator aborts on a free of a non-live block, balance 0 at the end |
